@@ -183,6 +183,9 @@ func genExprs(b *builder, level int) {
 		b.add("expr/bitnot/"+w.tag, fmt.Sprintf("func FN(x %s) %s {\n\treturn ^x\n}", T, T))
 		b.add("expr/callarg/"+w.tag,
 			fmt.Sprintf("func FNhelper(a %s, b %s) %s {\n\treturn a - b\n}\n\nfunc FN(x %s, y %s) %s {\n\treturn FNhelper(x+y, y*x)\n}", T, T, T, T, T, T))
+		// a constant sub-expression in a typed context (its operands stay untyped for go/types)
+		b.add("expr/const-subexpr/"+w.tag, fmt.Sprintf("func FN(x %s) %s {\n\treturn x %% (3 | 1)\n}", T, T))
+		b.add("expr/const-shift-mask/"+w.tag, fmt.Sprintf("func FN(x %s) %s {\n\treturn x & (1<<3 - 1)\n}", T, T))
 		b.add("expr/literal/"+w.tag, fmt.Sprintf("func FN(x %s) %s {\n\tvar c %s = 200\n\treturn x + c + 7\n}", T, T, T))
 	}
 	b.add("expr/not", "func FN(p bool) bool {\n\treturn !p\n}")
